@@ -10,7 +10,7 @@ func init() {
 			{Name: "invalid-operations", Pkg: ".", Files: files, Entry: "VerifInvalidOperations", Mode: "seq", Native: true,
 				Reach: []string{"invalid next to valid", "invalid alone"}, Functions: fns},
 			{Name: "service-errors", Pkg: ".", Files: files, Entry: "VerifServiceErrors", Mode: "seq", Native: true,
-				Reach: []string{"child step failed", "root step failed", "chunked downstream calls", "same message twice"}, Functions: fns},
+				Reach: []string{"child step failed", "root step failed", "chunked downstream calls", "same message twice", "two failed requests in one batch"}, Functions: fns},
 			{Name: "two-services-fail", Pkg: ".", Files: files, Entry: "VerifTwoServicesFail", Mode: "seq", Native: true,
 				Reach: []string{"two services failed", "same message from two services"}, Functions: fns},
 		},
